@@ -1,4 +1,5 @@
 import Snel.Model.C08Enc
+import Snel.Gen.C08
 /-!
 Model of `SurfTrie::build_from_sorted` (`surf_trie.rs`) and of the probe code in
 `zone_surf_filter.rs` (`find_first_key_geq`, `find_last_key_leq`, `find_first_key`,
@@ -359,5 +360,65 @@ def mayOverlapLe (f : Flat) (upper : List Nat) (incl : Bool) : Bool :=
     | none => false
 
 end Flat
+
+/-! ## the filter of one field of one segment, and `RangePruner::apply_surf_only` -/
+
+inductive NKind where
+  | I | U | F
+  deriving Repr, DecidableEq
+
+/-- Numeric kind of one value as `is_field_numeric_consistent` sees it; `none` = not numeric. -/
+def svKind : SV → Option NKind
+  | .int64 _ => some .I
+  | .ts _ => some .I
+  | .f64 _ => some .F
+  | .utf8 s pf =>
+    if (parseI64 s).isSome then some .I
+    else if (parseU64 s).isSome then some .U
+    else if pf.isSome then some .F
+    else none
+  | _ => none
+
+/-- `is_field_numeric_consistent` over the field's values of all zones (events lacking the field
+are skipped): all numeric, one kind, at least one value. -/
+def numericConsistent : List SV → Option NKind → Bool
+  | [], k => k.isSome
+  | v :: vs, k =>
+    match svKind v with
+    | none => false
+    | some t =>
+      match k with
+      | none => numericConsistent vs (some t)
+      | some k0 => if k0 = t then numericConsistent vs (some k0) else false
+
+/-- `ZoneSurfFilter::build_all_filtered` for one field: `none` = no `.zsrf` file is written.
+A zone takes part only if its **first** event carries the field (`dynamic_keys` comes from
+`zp.events.get(0)`) and at least one of its values encodes. Zones are given in id order. -/
+def surfBuild (zones : List (Nat × List (Option SV))) : Option (List (Nat × Trie)) :=
+  let all := zones.flatMap fun z => z.2.filterMap id
+  if !numericConsistent all none then none
+  else
+    let entries := zones.filterMap fun z =>
+      match z.2 with
+      | some _ :: _ =>
+        let keys := z.2.filterMap fun o => o.bind encodeValue
+        if keys.isEmpty then none else some (z.1, build keys)
+      | _ => none
+    if entries.isEmpty then none else some entries
+
+/-- `RangePruner::apply_surf_only` given the loaded filter: `none` = "no answer, caller falls
+back to all zones" (unencodable literal, or more than `MIN_ZONES_FOR_THRESHOLD` zones of which
+at least `MATCH_THRESHOLD` matched). The f64 comparison `matched >= total * 0.9` is written on
+integers (`den * matched ≥ num * total`; equal for every total below 2^50). -/
+def surfPrune (entries : List (Nat × Trie)) (ge : Bool) (incl : Bool) (lit : SV) : Option (List Nat) :=
+  if entries.isEmpty then none
+  else
+    match encodeValue lit with
+    | none => none
+    | some bytes =>
+      let zs := zonesOverlapping entries ge bytes incl
+      if entries.length > Snel.Gen.C08.surfMinZones ∧
+          Snel.Gen.C08.surfMatchDen * zs.length ≥ Snel.Gen.C08.surfMatchNum * entries.length then none
+      else some zs
 
 end Snel.C08
